@@ -76,6 +76,9 @@ Freshen(L, eff, T, g) ==
                lasttag |-> g, n304 |-> eff[U].n304 + 1 ]
       ELSE eff[U] ]
 
+\* a 304 that may be written to the store: neither the request nor the 304 says no-store
+Storable304(L, rq, g) == ~Has(rq, "no-store") /\ ~(L.sent[g].rep.ccp = 1 /\ Has(L.sent[g].rep, "no-store"))
+
 \* a background call whose outcome the cache may or may not have seen
 BgLate(L, c, rq) == c.ctxdone = 1 \/ (c.t1 - c.t0) * 1000 >= L.swr \/ rq.cancel # 0 \/ c.kind \in {"cancelled", "released"}
 
@@ -95,7 +98,7 @@ OnQuiet(L, e, line) == [L EXCEPT !.t = e.t, !.last = [kind |-> "quiet", line |->
 
 OnBegin(L, e, line) ==
   [ L EXCEPT !.t = e.t,
-      !.open = L.open @@ (e.x :> [rq |-> e.rq, t0 |-> e.t, nfault |-> e.nfault, hard |-> e.hard]),
+      !.open = L.open @@ (e.x :> [rq |-> e.rq, t0 |-> e.t, nfault |-> e.nfault, hard |-> e.hard, line |-> line, seq |-> L.nreq + 1]),
       !.pairs = L.pairs \cup {<<e.rq.u, e.rq.sel>>},
       !.nreq = L.nreq + 1,
       !.faulted = L.faulted \/ e.nfault > 0,
@@ -112,7 +115,9 @@ OnOp(L, e, line) ==
                 THEN [k \in DOMAIN L.kv \ {e.k} |-> L.kv[k]]
               ELSE L.kv
       new  == IF e.kind = "set" /\ ok THEN toks \ L.ever ELSE {}
-      repl == { <<T, L.tk[N].rq.sel>> : T \in L.ever \cap DOMAIN L.tk, N \in new \cap DOMAIN L.tk }
+      \* <<replaced token, selecting values, number of requests begun so far>>: only an
+      \* exchange that begins later must not be answered with the replaced response
+      repl == { <<T, L.tk[N].rq.sel, L.nreq>> : T \in L.ever \cap DOMAIN L.tk, N \in new \cap DOMAIN L.tk }
       repl2 == { p \in repl : \E N \in new \cap DOMAIN L.tk :
                    /\ p[2] = L.tk[N].rq.sel
                    /\ L.tk[p[1]].rq.u = L.tk[N].rq.u
@@ -137,6 +142,7 @@ OnCall(L, e, line) ==
          !.eff = IF isResp /\ e.tok # ""
                   THEN L.eff @@ (e.tok :> [rep |-> e.rep, ages |-> {e.rep.age}, lasttag |-> e.tag, n304 |-> 0])
                  ELSE IF e.bg = 1 /\ e.kind = "304" /\ e.x \in DOMAIN L.served /\ ~BgLate(L, c, rq)
+                         /\ ~Has(rq, "no-store") /\ ~(e.rep.ccp = 1 /\ Has(e.rep, "no-store"))
                   THEN Freshen([L EXCEPT !.sent = L.sent @@ (e.tag :> [kind |-> e.kind, tok |-> e.tok, x |-> e.x, rep |-> e.rep])],
                                L.eff, L.served[e.x], e.tag)
                  ELSE L.eff,
@@ -168,7 +174,7 @@ OnRet(L, e, line) ==
                { T \in StoredToks(L) \cap DOMAIN L.tk :
                    /\ L.tk[T].rq.u = rq.u /\ L.tk[T].x < e.x
                    /\ T \notin L.inval /\ T \notin L.fuzzy
-                   /\ <<T, rq.sel>> \notin L.replacedFor
+                   /\ ~(\E p \in L.replacedFor : p[1] = T /\ p[2] = rq.sel)
                    /\ VariantMatch(L.eff[T].rep, L.tk[T].rq, rq) }
       unsafeOK == rq.m \notin SafeMethods /\ resp /\ e.st >= 200 /\ e.st < 400 /\ ownTag
       orep == IF ownTag THEN L.sent[e.tag].rep ELSE [locu |-> -1, locso |-> 0, clocu |-> -1, clocso |-> 0]
@@ -185,8 +191,8 @@ OnRet(L, e, line) ==
       \* 304 freshening: the ledger's expectation of what is stored now
       n304 == IF val304 THEN (CHOOSE i \in 1..Len(fg) : fg[i].kind = "304") ELSE 0
       bgs  == BgCalls(L, e.x)
-      bgOK == { i \in 1..Len(bgs) : bgs[i].kind = "304" /\ ~BgLate(L, bgs[i], rq) }
-      eff1 == IF fromStore /\ val304 THEN Freshen(L, L.eff, e.tok, fg[n304].tag) ELSE L.eff
+      bgOK == { i \in 1..Len(bgs) : bgs[i].kind = "304" /\ ~BgLate(L, bgs[i], rq) /\ Storable304(L, rq, bgs[i].tag) }
+      eff1 == IF fromStore /\ val304 /\ Storable304(L, rq, fg[n304].tag) THEN Freshen(L, L.eff, e.tok, fg[n304].tag) ELSE L.eff
       eff2 == IF fromStore /\ bgOK # {} THEN Freshen(L, eff1, e.tok, bgs[CHOOSE i \in bgOK : TRUE].tag) ELSE eff1
       fuzzy2 == IF fromStore /\ (\E i \in 1..Len(bgs) : BgLate(L, bgs[i], rq)) THEN L.fuzzy \cup {e.tok} ELSE L.fuzzy
       swrServed == fromStore /\ ~contacted /\ e.label = "STALE"
@@ -295,7 +301,8 @@ M09(L) == A09(L) => Reused(L)
 
 A08(L) == IsRet(L) /\ L.last.fromStore
 M08(L) ==
-  /\ (A08(L) /\ ~L.last.val304 => <<L.last.e.tok, L.last.rq.sel>> \notin L.replacedFor)
+  /\ (A08(L) /\ ~L.last.val304 =>
+        ~(\E p \in L.replacedFor : p[1] = L.last.e.tok /\ p[2] = L.last.rq.sel /\ p[3] < L.last.o.seq))
   \* a freshened response that must be reused carries the 304's fields
   /\ (A09(L) /\ Reused(L) =>
         LET R == L.last  E == R.effBefore[R.e.tok] IN
